@@ -238,6 +238,7 @@ pub const STR_ATOMS: &[&str] = &["'a'", "\"b c\"", "''", "s1", "s2", "'10'", "'Ã
 pub const BOOL_ATOMS: &[&str] = &["true", "false", "t", "f"];
 pub const OTHER_ATOMS: &[&str] = &[
     "null", "nul", "[1,2]", "[]", "['a']", "{'a':1}", "{}", "arr", "arr1", "m1", "al", "arr[1]", "m.k", "m['j']",
+    "[1,3]", "[1,2,3]", "[1,2,4]", "{'k':2}", "{'j':'v','k':1}", "{'j':'w','k':1}", "m",
     "length(s1)", "s1.length()", "abs(i2)", "toString(i1)", "isDefined(und)", "indexOf(s1, s2)", "und", "err", "e",
     "nest", "mm.a", "nest[0][2]", "[arr1]", "[[1]]", "deep.a.b", "deep.a", "s1.toString().length()", "deep.a.b.toString()",
 ];
@@ -254,6 +255,8 @@ pub fn all_value_atoms() -> Vec<&'static str> {
 pub const KIND_ATOMS: &[&str] = &[
     "7", "-3", "9223372036854775807", "-9223372036854775808", "0", "2.5", "-0.5", "'ab'", "'b'", "''", "true", "false",
     "null", "[1,2]", "[]", "{'k':1}", "{}", "arr", "m1", "und", "err", "src", "s1", "i1", "d1",
+    // same shape, different content beyond the first element / key
+    "[1,3]", "[1,2,3]", "[1,2,4]", "{'k':2}", "{'j':'v','k':1}", "{'j':'w','k':1}",
 ];
 
 pub fn pick_atom(p: &mut Prng, numeric_bias: bool) -> String {
